@@ -16,6 +16,10 @@ Streams (model `Wpull.Url` vs the real code in ctx.repo):
            free) model; a failure carries the number of URLs parsed before and the replay re-creates that history
   byte-sweep  the `encoding` argument as a dimension: 19 codecs x every byte value 0x80..0xFF x {path, query, fragment, user info}
   pct256   percent_encode for all 256 byte values x 5 encode sets
+  rewrite  URLRewriter.rewrite (--escaped-fragment / --strip-session-id, all four combinations) directly and through the start-URL
+           import InputURLTask._read_input_urls, on URLs with braces and format-spec look-alikes ({id} {} {0} {0!r} {:>9} lone braces
+           {{x}} %s %(x)s) in path / query / fragment and #! fragments: nothing but ValueError-or-skip; result = the concatenation
+           reference; model rewriteEscaped agrees (hash-fragment part)
   scrape   the consumer of the logging variant: the real ProcessingRule.scrape_document / _process_scrape_info (real FetchRule,
            real URLRewriter with every option combination incl. none, stub ItemSession table and scraper result) on link lists
            mixing parseable links with every class of unparseable one: never raises, unparseable skipped, parseable queued
@@ -393,12 +397,8 @@ def scrape_batch(ctx, wu, link_lists):
                     info = None
                 if info is None:
                     continue
-                if rewriter is not None:
-                    try:
-                        info = rewriter.rewrite(info)
-                    except Exception as e:
-                        ctx.fail('raises', 'URLRewriter.rewrite', case, 'rewrite raised %s for %r' % (type(e).__name__, link))
-                        continue
+                if combo is not None:
+                    info = uc.ref_rewrite(wu, info, combo[0], combo[1])      # independent of the rewriter under test
                 expected.append(info.url)
             if sorted(set(added)) != sorted(set(expected)):
                 ctx.fail('links-lost', 'scrape_document', case,
@@ -503,10 +503,89 @@ def gen_starts(ctx, rng, n):
     return out
 
 
+def gen_rewrite_urls(ctx, rng, n):
+    out = list(uc.BRACE_LINKS) + list(START_URLS)
+    for _ in range(n):
+        u = uc.Spec(rng).render(rng).split('#')[0]
+        brace = rng.choice(['{id}', '{}', '{0}', '{0!r}', '{:>9}', '{', '}', '{{x}}', '%s', '%(x)s', '{a}{b}', ''])
+        pos = rng.choice(['path', 'query', 'both'])
+        if pos in ('path', 'both'):
+            u = u.replace('?', '/' + brace + '?', 1) if '?' in u else u + '/' + brace
+        if pos in ('query', 'both'):
+            u += ('&' if '?' in u else '?') + 'k=' + brace
+        u += rng.choice(['#!', '#!frag', '#!' + brace, '#!/a?b', '#x', '', '#!a=b&c={d}'])
+        if rng.random() < 0.2:
+            u += rng.choice(['?sid=' + 'a' * 32, '&jsessionid=' + '0' * 32])
+        out.append(u)
+    return out
+
+
+def rewrite_batch(ctx, wu, urls):
+    """URLRewriter.rewrite directly and through the start-URL import (InputURLTask._read_input_urls), each option
+    combination: nothing but ValueError-or-skip, and the rewritten URL equals the concatenation reference"""
+    from wpull.urlrewrite import URLRewriter
+    from wpull.application.tasks.database import InputURLTask
+    import types
+    cases = []
+    for u in urls:
+        for combo in REWRITER_COMBOS[1:]:
+            case = {'stream': 'rewrite', 'url': u, 'rewriter': list(combo)}
+            rewriter = URLRewriter(hash_fragment=combo[0], session_id=combo[1])
+            wu.URLInfo.parse.__func__.cache_clear()
+            try:
+                info = wu.URLInfo.parse(u)
+            except ValueError:
+                info = None
+            ctx.case(('rewrite', u, combo), tags=['rewrite:' + ('unparseable' if info is None else 'ok'), 'rewrite:combo=%s' % (combo,)])
+            ref = None
+            if info is not None:
+                ref = uc.ref_rewrite(wu, info, combo[0], combo[1]).url
+                try:
+                    with uc.guard():
+                        got = rewriter.rewrite(info).url
+                except uc.Timeout:
+                    ctx.fail('nontermination', 'URLRewriter.rewrite', case, 'timeout')
+                    continue
+                except BaseException as e:
+                    ctx.fail('raises', 'URLRewriter.rewrite', case, 'rewrite of the parsed URL raised %s: %s' % (type(e).__name__, str(e)[:200]))
+                    got = None
+                if got is not None and got != ref:
+                    ctx.fail('rewrite-wrong', 'URLRewriter.rewrite', case, 'rewritten to %r, expected %r' % (got, ref))
+            # the start-URL import with this rewriter
+            session = types.SimpleNamespace(
+                args=types.SimpleNamespace(urls=[u], input_file=None, force_html=False, base=None, local_encoding=None),
+                factory={'URLRewriter': rewriter})
+            try:
+                with uc.guard():
+                    infos = [i.url for i in InputURLTask._read_input_urls(session) if i]
+            except uc.Timeout:
+                ctx.fail('nontermination', '_read_input_urls', case, 'timeout')
+                continue
+            except BaseException as e:
+                ctx.fail('raises', '_read_input_urls', case, 'the start-URL import raised %s: %s' % (type(e).__name__, str(e)[:200]))
+                continue
+            if infos != ([] if ref is None else [ref]):
+                ctx.fail('rewrite-wrong', '_read_input_urls', case, 'imported %r, expected %r' % (infos, ref))
+        if True:
+            cases.append(uc.Case(u, 'http', 'utf-8', 'rewrite'))
+    # model: the --escaped-fragment part (hash_fragment only)
+    from wpull.urlrewrite import URLRewriter as _R
+    rw = _R(hash_fragment=True, session_id=False)
+    for c in cases:
+        uc.run_real(wu, c, 'rewrite', after=lambda info: 'ok ' + uc.eres(lambda: rw.rewrite(info).url))
+    live = [c for c in cases if not c.skip]
+    replies = ctx.model.ask([c.line for c in live])
+    for c, rep in zip(live, replies):
+        if rep != c.real:
+            ctx.disagree('rewrite', {'stream': 'rewrite', 'url': c.url, 'rewriter': [True, False]}, rep, c.real)
+    if urls:
+        ctx.sample({'stream': 'rewrite', 'url': urls[0]})
+
+
 JUNK_LINKS = ['http://[::1/unclosed', 'http://exa mple.com/', 'http://example.com:99999999/', 'http://' + 'a' * 70 + '.com/',
               'http://example.com/\ud800', 'http://:/', '', ':', 'http://', 'http://\udc80@h/', 'http://h:x/', 'http://[fe80::1%eth0]/',
               'http://a..b/', '\x00', 'http://h/\x01', '//', 'http://@/', 'http://[]', 'http://é' + 'a' * 64 + '.com/']
-GOOD_LINKS = ['http://example.com/page#!state', 'http://example.com/a.aspx?sid=0123456789abcdef0123456789abcdef',
+GOOD_LINKS = uc.BRACE_LINKS + ['http://example.com/page#!state', 'http://example.com/a.aspx?sid=0123456789abcdef0123456789abcdef',
               'http://example.com/x?a=b#!c', 'https://example.com/(S(abcdefghijklmnopqrstuvwx))/p.aspx', 'ftp://example.com/f',
               'mailto:x@y', 'example.com/naked', 'http://example.com/?jsessionid=0123456789abcdef0123456789abcdef&z=1#!']
 
@@ -527,7 +606,7 @@ def gen_link_lists(ctx, rng, n):
             elif r < 0.8:
                 links.append(uc.mutate(rng, rng.choice(seeds + GOOD_LINKS)))
             else:
-                links.append(uc.Spec(rng).render(rng) + rng.choice(['', '#!frag', '#!a=b&c', '?sid=' + 'a' * 32, '#!']))
+                links.append(uc.Spec(rng).render(rng) + rng.choice(['', '#!frag', '#!a=b&c', '?sid=' + 'a' * 32, '#!', '{id}#!x', '?{}#!{0}']))
         out.append(links)
     return out
 
@@ -598,6 +677,8 @@ def replay(ctx, case, kind=None, where=None):
         html_batch(ctx, wu, [case])
     elif s == 'sitemaps':
         sitemaps_batch(ctx, wu, [case['url']])
+    elif s == 'rewrite':
+        rewrite_batch(ctx, wu, [case['url']])
     else:
         raise Infra('unknown replay stream %r' % s)
 
@@ -625,6 +706,7 @@ def run(ctx):
         rs(ctx, 'orlog', lambda: batch(ctx, wu, ol, op='orlog'))
     rs(ctx, 'join', lambda: join_batch(ctx, wu, gen_pairs(ctx, ctx.subrng('join'), ctx.scale(3000, 60000))))
     rs(ctx, 'scrape', lambda: scrape_batch(ctx, wu, gen_link_lists(ctx, ctx.subrng('scrape'), ctx.scale(400, 6000))))
+    rs(ctx, 'rewrite', lambda: rewrite_batch(ctx, wu, gen_rewrite_urls(ctx, ctx.subrng('rewrite'), ctx.scale(500, 8000))))
     rs(ctx, 'sitemaps', lambda: sitemaps_batch(ctx, wu, gen_starts(ctx, ctx.subrng('sitemaps'), ctx.scale(600, 10000))))
     hrng = ctx.subrng('html')
     rs(ctx, 'htmljoin', lambda: html_batch(ctx, wu, [gen_doc(hrng) for _ in range(ctx.scale(600, 10000))]))
@@ -644,3 +726,4 @@ def search(ctx):
     scrape_batch(ctx, wu, gen_link_lists(ctx, rng, ctx.scale(20, 60)))
     html_batch(ctx, wu, [gen_doc(rng) for _ in range(ctx.scale(30, 100))])
     sitemaps_batch(ctx, wu, gen_starts(ctx, rng, ctx.scale(30, 100)))
+    rewrite_batch(ctx, wu, gen_rewrite_urls(ctx, rng, ctx.scale(30, 100)))
